@@ -68,12 +68,15 @@ gen_corpus() {
   REGFN=RegisterAux gen_pkg vvaluw vval U-wrapper false true false false -- $VV &
   VEN_IMPORTS=""
   ven_wanted && gen_ven
+  PS_IMPORTS=""
+  ps_wanted && gen_ps
   wait
   ven_wanted && gen_ven_finish
+  ps_wanted && gen_ps_finish
   for p in vtus vtuw vocus vocuw voccs voccw vocco voccsh vkus vkuw vvalus vvaluw; do [ -s "$WORK/gen/$p/$p.go" ] || die "corpus package $p was not generated"; done
   {
     echo "package main"; echo; echo "import ("
-    for p in vtus vtuw vocus vocuw voccs voccw vocco voccsh vkus vkuw vvalus vvaluw $VEN_IMPORTS; do echo "	_ \"github.com/openconfig/ygot/zzverif/gen/$p\""; done
+    for p in vtus vtuw vocus vocuw voccs voccw vocco voccsh vkus vkuw vvalus vvaluw $VEN_IMPORTS $PS_IMPORTS; do echo "	_ \"github.com/openconfig/ygot/zzverif/gen/$p\""; done
     echo ")"
   } > "$WORK/imports_gen.go"
 }
@@ -174,6 +177,109 @@ EOP
     p=$(basename "$st" .stage)
     [ "$(cat "$st")" = ok ] && [ -s "$WORK/gen/$p/$p.go" ] && VEN_IMPORTS="$VEN_IMPORTS $p"
   done
+}
+
+# ---- C29: path-struct corpus (schemas voc, vps = vps + vps-aug + vps-inl + vps-mix, vpsid = vps-id; -generate_path_structs -compress_paths) ----
+# Every path-struct package registers its root constructor with core.RegisterPath (harness/core/pathreg.go) through a
+# generated pathreg.go. Two layouts: "same" = GoStructs (registered with core.RegisterAux) and path structs generated
+# by ONE generator run into one package; "sep" = path structs only (-generate_structs=false -schema_struct_path=...)
+# in a package of their own that imports an already generated GoStruct package. Only built for C29 (ID set by
+# check.sh) and for devbuild.sh / replay.sh (no ID); VERIF_PS=1|0 overrides.
+ps_wanted() {
+  case "${VERIF_PS:-auto}" in 1|yes) return 0;; 0|no) return 1;; esac
+  case "${ID:-}" in ""|C29) return 0;; esac
+  return 1
+}
+
+PS_GOIMPORT=github.com/openconfig/ygot/zzverif/gen
+PS_LIST=""
+
+# ps_reg <pkg> <structpkg> <schema> <config> <layout> <suffix> <wildcards> <simplify> <builder> <opstate> <exclstate> <split> <yang files...>
+ps_reg() {
+  mkdir -p "$WORK/gen/$1"
+  local f yf=""
+  for f in "${@:13}"; do yf="$yf\"$(basename "$f")\", "; done
+  cat > "$WORK/gen/$1/pathreg.go" <<EOR
+package $1
+
+import (
+	"github.com/openconfig/ygot/ygot"
+	"github.com/openconfig/ygot/zzverif/core"
+)
+
+func init() {
+	core.RegisterPath(&core.PathPkg{
+		Name: "$1", StructPkg: "$2", SchemaName: "$3", Config: "$4", Layout: "$5",
+		Suffix: "$6", Wildcards: $7, Simplify: $8, BuilderThreshold: $9, OpState: ${10}, ExcludeState: ${11}, SplitByModule: ${12},
+		YANGFiles: []string{$yf},
+		Root: func(id string) ygot.PathStruct { return DeviceRoot(id) },
+	})
+}
+EOR
+}
+
+# ps_same <pkg> <schema> <config> <wrapper> <opstate> <ignoreshadow> <suffix> <wildcards> <simplify> <builder> <exclstate> <flags...> -- <yang files...>
+ps_same() {
+  local pkg=$1 schema=$2 config=$3 wrap=$4 opst=$5 ish=$6 suffix=$7 wild=$8 simp=$9 builder=${10} excl=${11}; shift 11
+  REGFN=RegisterAux gen_pkg "$pkg" "$schema" "$config" true "$wrap" "$opst" "$ish" -compress_paths -generate_path_structs \
+    -path_structs_output_file="$WORK/gen/$pkg/${pkg}_path.go" -path_struct_suffix="$suffix" "$@"
+  while [ "$1" != "--" ]; do shift; done; shift
+  ps_reg "$pkg" "$pkg" "$schema" "$config" same "$suffix" "$wild" "$simp" "$builder" "$opst" "$excl" false "$@"
+}
+
+# ps_sep <pkg> <structpkg> <schema> <config> <suffix> <opstate> <split> <flags...> -- <yang files...>
+ps_sep() {
+  local pkg=$1 spkg=$2 schema=$3 config=$4 suffix=$5 opst=$6 split=$7; shift 7
+  local flags=()
+  while [ "$1" != "--" ]; do flags+=("$1"); shift; done; shift
+  mkdir -p "$WORK/gen/$pkg"
+  "$WORK/generator.bin" -path="$VERIF/schemas" -generate_fakeroot -fakeroot_name=device -compress_paths -generate_structs=false \
+    -generate_path_structs -package_name="$pkg" -schema_struct_path="$PS_GOIMPORT/$spkg" -path_struct_suffix="$suffix" \
+    -path_structs_output_file="$WORK/gen/$pkg/${pkg}_path.go" "${flags[@]}" "$@" >"$WORK/gen/$pkg/gen.log" 2>&1 \
+    || { cat "$WORK/gen/$pkg/gen.log" >&2; die "path struct generator failed for $pkg"; }
+  ps_reg "$pkg" "$spkg" "$schema" "$config" sep "$suffix" true false 0 "$opst" false "$split" "$@"
+}
+
+gen_ps() { # starts background jobs; the caller waits
+  local VOC="$VERIF/schemas/voc.yang" VPS2="$VERIF/schemas/vps.yang $VERIF/schemas/vps-aug.yang"
+  local VPSO="$VPS2 $VERIF/schemas/vps-mix.yang" # no vps-inl: its inline enumeration key is rejected under -prefer_operational_state
+  local VPSB="$VPS2 $VERIF/schemas/vps-inl.yang" # no vps-mix: /mixed/item yields uncompilable code under -list_builder_key_threshold=1
+  local VPS="$VPS2 $VERIF/schemas/vps-inl.yang $VERIF/schemas/vps-mix.yang"
+  # (split by module uses VPS2: a module package that references no GoStruct type - vps-inl, vps-mix - does not compile)
+  # voc: path structs in packages of their own, importing the main corpus GoStruct packages
+  ps_sep vocpcs voccs voc P-sep-simple Path false false -- $VOC &
+  ps_sep vocpcw voccw voc P-sep-wrapper Path false false -- $VOC &
+  ps_sep vocpco vocco voc P-sep-opstate Path true false -prefer_operational_state -- $VOC &
+  ps_sep vocpsh voccsh voc P-sep-shadow-suffixPS PS false false -- $VOC &
+  # vps: GoStructs + path structs in one package
+  #       pkg     schema config              wrap  opst  ish   suffix wild  simp  bld excl
+  ps_same vpsps   vps P-simple               false false false Path   true  false 0   false -generate_simple_unions -- $VPS &
+  ps_same vpspw   vps P-wrapper              true  false false Path   true  false 0   false -- $VPS &
+  ps_same vpspo   vps P-opstate              false true  false Path   true  false 0   false -generate_simple_unions -prefer_operational_state -- $VPSO &
+  ps_same vpspsh  vps P-shadow-suffixPx      false false true  Px     true  false 0   false -generate_simple_unions -ignore_shadow_schema_paths -- $VPS &
+  ps_same vpspnw  vps P-nowildcards          false false false Path   false false 0   false -generate_simple_unions -generate_wildcard_paths=false -- $VPS &
+  ps_same vpspsw  vps P-simplifywildcards    false false false Path   true  true  0   false -generate_simple_unions -simplify_wildcard_paths -- $VPS &
+  ps_same vpspb2  vps P-builder2             false false false Path   true  false 2   false -generate_simple_unions -list_builder_key_threshold=2 -- $VPS &
+  ps_same vpspb1  vps P-builder1-wrapper     true  false false Path   true  false 1   false -list_builder_key_threshold=1 -- $VPSB &
+  ps_same vpsp2   vps P-wrapper-2modules     true  false false Path   true  false 0   false -- $VPS2 &
+  ps_same vpspxs  vps P-excludestate         false false false Path   true  false 0   true  -generate_simple_unions -exclude_state -- $VPS &
+  # vpsid: top-level names that coincide with the methods of ygot.DeviceRootBase
+  ps_same vpspid  vpsid P-rootnames          false false false Path   true  false 0   false -generate_simple_unions -- $VERIF/schemas/vps-id.yang &
+  # vps: packages of their own importing vpsps / vpsp2: empty struct suffix; split by module (fake root package
+  # vpspmr, module packages vpspm and vpsaugpm land next to it under gen/)
+  ps_sep vpspx vpsps vps P-sep-nosuffix "" false false -- $VPS &
+  ps_sep vpspmr vpsp2 vps P-sep-splitbymodule Path false true -split_pathstructs_by_module -base_import_path="$PS_GOIMPORT" \
+    -path_struct_package_suffix=pm -output_dir="$WORK/gen" -- $VPS2 &
+  PS_LIST="vocpcs vocpcw vocpco vocpsh vpsps vpspw vpspo vpspsh vpspnw vpspsw vpspb2 vpspb1 vpsp2 vpspxs vpspid vpspx vpspmr"
+}
+
+gen_ps_finish() { # after wait
+  local p
+  for p in $PS_LIST; do
+    [ -s "$WORK/gen/$p/${p}_path.go" ] && [ -s "$WORK/gen/$p/pathreg.go" ] || die "path-struct package $p was not generated"
+  done
+  for p in vpspm vpsaugpm; do [ -s "$WORK/gen/$p/$p.go" ] || die "split-by-module package $p was not generated"; done
+  PS_IMPORTS="$PS_LIST"
 }
 
 # make_overlay: writes $WORK/overlay.json mapping harness + generated files into $REPO/zzverif
